@@ -61,6 +61,13 @@ UACollPlain == {Arr(<<x, y, x>>) : x \in UAColl, y \in UAColl} \cup {Arr(<<x, y,
 UABytesReps == UNION {RepsOf(v, {"uint8", "float64"}, {"typed", "any", "array"}, {"any"}) :
                         v \in {Arr(<<Arr(<<Num(R_1)>>), Arr(<<Num(R_1)>>)>>), Arr(<<Arr(<<Num(R_1), Num(R_0)>>), Arr(<<Num(R_1), Num(R_0)>>)>>),
                                Arr(<<Arr(<<Num(R_1), Num(R_0)>>), Arr(<<Num(R_0), Num(R_1)>>)>>), Arr(<<EmptyArr, Arr(<<Num(R_0)>>)>>)}}
+\* arrays of arrays for the schemas that run several uniqueItems checks in one call
+UANestedPlain == {Arr(<<Arr(<<Num(R_1), Num(R_1)>>), Arr(<<Num(R_1), Num(R_2)>>)>>), Arr(<<Arr(<<Num(R_1), Num(R_2)>>), Arr(<<Num(R_1), Num(R_1)>>)>>),
+                  Arr(<<Arr(<<Num(R_2), Num(R_2)>>), Arr(<<Num(R_2), Num(R_0)>>), Arr(<<Num(R_0), Num(R_2)>>)>>),
+                  Arr(<<Num(R_0), Arr(<<Num(R_0), Num(R_0)>>)>>), Arr(<<Arr(<<Num(R_0), Num(R_0)>>), Num(R_0)>>),
+                  Arr(<<Arr(<<Null, Null>>), Arr(<<Null>>), Arr(<<Null, Num(R_1)>>)>>),
+                  Arr(<<Arr(<<Str("1"), Str("1"), Str("a")>>), Arr(<<Str("a"), Str("1")>>), Arr(<<Str("a"), Str("a")>>)>>)}
+UANestedReps == UNION {RepsOf(v, {"float64"}, {"any"}, {"any"}) : v \in UANestedPlain}
 UACollReps == UNION {RepsOf(v, {"float64"}, {"any"}, {"any"}) : v \in UACollPlain}
 \* (K >= 2: all pairs over the larger element set, all triples over a core of one value per JSON type)
 UACore == {Num(R_0), Num(R_1), Str("1"), Null, Arr(<<Num(R_m1)>>)}
@@ -73,7 +80,13 @@ UASchemas == <<[uniqueItems |-> TRUE],
                [const |-> Arr(<<Num(R_m1)>>)], [const |-> Arr(<<Num(R_1), Num(R_1)>>)],
                [const |-> Arr(<<Obj([a |-> Num(R_1)])>>)], [enum |-> <<>>], [const |-> Null],
                [items |-> [enum |-> <<Num(R_1), Obj([a |-> Num(R_1), b |-> Num(R_2)])>>]],
-               [items |-> [const |-> Str("1")]]>>
+               [items |-> [const |-> Str("1")]],
+               \* several uniqueItems checks within ONE Validate call, an earlier one failing inside an applicator that
+               \* tolerates failure: every check starts from nothing
+               [prefixItems |-> <<[not |-> [uniqueItems |-> TRUE]], [uniqueItems |-> TRUE]>>],
+               [contains |-> [uniqueItems |-> TRUE], minContains |-> 2],
+               [anyOf |-> <<[items |-> [uniqueItems |-> TRUE]], [uniqueItems |-> TRUE]>>],
+               [items |-> [anyOf |-> <<[uniqueItems |-> TRUE], [type |-> "array"]>>], uniqueItems |-> TRUE]>>
 
 \* ------------------------------------------------------------ RV representation independence
 RVPlain ==
@@ -128,7 +141,7 @@ RVSeq == IF Family = "RV" THEN SetToSeq(RVReps(0)) ELSE <<>>
 
 Cases ==
   CASE Family = "EQ" -> EQPool(0)
-    [] Family = "UA" -> UNION {UAReps(v) : v \in UAPlain(0)} \cup UACollReps \cup UABytesReps
+    [] Family = "UA" -> UNION {UAReps(v) : v \in UAPlain(0)} \cup UACollReps \cup UABytesReps \cup UANestedReps
     [] Family = "RV" -> {RVSchemas[i] : i \in DOMAIN RVSchemas}
     [] Family = "HU" -> {Arr(e) : e \in UNION {[1..n -> {Num(R_1), Num(R_2), Str("a")}] : n \in 0..4}}
 
